@@ -624,7 +624,7 @@ fn check_send(world: &mut World, before: &ModelState, i: usize, s: &SendStep, o:
             stats.probe("formatter_fails_in_message_start");
             stats.fault("F6_formatter_call_fails");
             let injected = spec_obs(err);
-            if o.result != Err(injected.clone()) {
+            if !matches!(&o.result, Err(e) if e.reports(&injected)) {
                 out.push(Finding::new(
                     "C13.query_result",
                     "formatter_failure_at_message_start_not_returned",
@@ -634,12 +634,14 @@ fn check_send(world: &mut World, before: &ModelState, i: usize, s: &SendStep, o:
                 return;
             }
             let mut exp = before.clone();
-            exp.record_error(&injected);
+            if let Err(e) = &o.result {
+                exp.record_error(e);
+            }
             compare_state(&exp, &world.snap(), i, s, o, "formatter failed in message_start", out);
         }
         return;
     }
-    let pred = predict(&world.root, before, s, Reading::Condition);
+    let pred = super::predict_seen(world, before, s, o, Reading::Condition);
     let after = world.snap();
     let qfull_before = before.queue.cap.map(|c| before.queue.items.len() >= c).unwrap_or(false);
     let outcome_class: u8 = match &o.result {
